@@ -178,6 +178,25 @@ def notin(data: PolarsData, forbidden_values: Iterable) -> pl.LazyFrame:
     )
 
 
+_INLINE_FLAGS = (
+    (re.IGNORECASE, "i"),
+    (re.MULTILINE, "m"),
+    (re.DOTALL, "s"),
+    (re.VERBOSE, "x"),
+)
+
+
+def _pattern_source(pattern: Union[str, re.Pattern]) -> str:
+    """Text of a regular expression; the flags of a compiled pattern are
+    kept as an inline flag group."""
+    if not isinstance(pattern, re.Pattern):
+        return pattern
+    flags = "".join(c for flag, c in _INLINE_FLAGS if pattern.flags & flag)
+    if flags:
+        return f"(?{flags}){pattern.pattern}"
+    return pattern.pattern
+
+
 @register_builtin_check(
     error="str_matches('{pattern}')",
 )
@@ -191,7 +210,7 @@ def str_matches(
                 to access the dataframe is "dataframe" and column name using "key".
     :param pattern: Regular expression pattern to use for matching
     """
-    pattern = pattern.pattern if isinstance(pattern, re.Pattern) else pattern
+    pattern = _pattern_source(pattern)
     # anchor the whole pattern (every top-level alternative) at the start
     pattern = f"^(?:{pattern})"
     return data.lazyframe.select(
@@ -213,7 +232,7 @@ def str_contains(
     :param pattern: Regular expression pattern to use for searching
     """
 
-    pattern = pattern.pattern if isinstance(pattern, re.Pattern) else pattern
+    pattern = _pattern_source(pattern)
     return data.lazyframe.select(
         pl.col(data.key).str.contains(pattern=pattern, literal=False)
     )
